@@ -1107,11 +1107,10 @@ theorem concealEnd_pos {last : Nat} (h : last ≠ 0) (idx : Int) (A : List Messa
 
 /-- **No lap or session position points into a concealed stretch**, outside the class of KF-C20-1 (F17). -/
 theorem conceal_noLeak {ph : PH} (hph : ph = lapPH ∨ ph = sesPH) (first last : Nat) (ms : List Message)
-    (hD : DistOK ms) (hT : recTimesIncB ms = true) (hseq : lapsSeqB ph ms = true)
+    (hD : DistOK ms) (hT : overlapTie first last ms = false) (hseq : lapsSeqB ph ms = true)
     (hUr : recUniqueB ms = true) (hUl : lapUniqueB ph ms = true) (hF : unitsDisagree ph first ms = false) :
     noLeakB ph first last ms (conceal first last ms) = true := by
   obtain ⟨hval, hseqP, hseqR⟩ := lapsSeqB_spec hseq
-  have hTp : ((ms.filter isRecord).map tstamp).Pairwise (· < ·) := sortedLtB_pairwise _ hT
   have hUr' : ∀ m ∈ ms, isRecord m = true → UniqueNum fnRecordPositionLat m ∧ UniqueNum fnRecordPositionLong m := by
     intro m hm hr
     have := List.all_eq_true.mp hUr m hm
@@ -1222,7 +1221,11 @@ theorem conceal_noLeak {ph : PH} (hph : ph = lapPH ∨ ph = sesPH) (first last :
     · -- the last revealed record lies before the first revealed one: overlap
       have hmem : r0 ∈ Y := by rw [e2]; simp
       refine ⟨fun _ => ⟨hYe r0 hmem hrec0, ?_⟩, fun h => ?_⟩
-      · exact pairwise_pick hTp (X := X) (a := rl) (mid := mid) (b := r0) (rest := post0) (by rw [ems, e2]) hrecl hrec0
+      · have hie : inEnd last ms r0 = true := hYe r0 hmem hrec0
+        have hne1 : (first != 0) = true := by simpa using hf0
+        have hne2 : (last != 0) = true := by simpa using hl0
+        simp only [overlapTie, hne1, hne2, hR0, hRL, hie, Bool.true_and, Bool.not_eq_false', decide_eq_true_eq] at hT
+        exact hT
       · rw [hovv] at h; simp at h; omega
     · refine ⟨fun h => ?_, fun _ => ?_⟩
       · rw [hovv] at h; simp at h; omega
@@ -1299,5 +1302,40 @@ theorem conceal_noLeak {ph : PH} (hph : ph = lapPH ∨ ph = sesPH) (first last :
       obtain ⟨hc, hdd⟩ := heN hl0 hab
       exact ⟨hts, hin, hout', hc, hdd⟩
   exact Rel2.zip_all (p := fun m m' => !(m.num == ph.mesgNum) || lapOK ph first last ms m m') final
+
+/-- strictly increasing record timestamps exclude the class of KF-C20-4 (so the statement under `recTimesIncB`, as it
+was first proved, follows from `conceal_noLeak`) -/
+theorem overlapTie_false_of_inc (first last : Nat) (ms : List Message) (hD : DistOK ms) (hT : recTimesIncB ms = true) :
+    overlapTie first last ms = false := by
+  have hTp : ((ms.filter isRecord).map tstamp).Pairwise (· < ·) := sortedLtB_pairwise _ hT
+  unfold overlapTie
+  cases h0 : firstRevealed first ms with
+  | none => simp
+  | some r0 =>
+    cases hl : lastRevealed last ms with
+    | none => simp
+    | some rl =>
+      simp only
+      cases hie : inEnd last ms r0 with
+      | false => simp
+      | true =>
+        have hlt : tstamp rl < tstamp r0 := by
+          obtain ⟨hp0, pre0, post0, e0, _⟩ := List.find?_eq_some_iff_append.mp h0
+          obtain ⟨hpl, as, bs, el, _⟩ := List.find?_eq_some_iff_append.mp hl
+          have ems : ms = bs.reverse ++ rl :: as.reverse := by
+            have := congrArg List.reverse el
+            simpa using this
+          simp only [Bool.and_eq_true, Bool.not_eq_true'] at hp0 hpl
+          rcases split_compare bs.reverse rl as.reverse pre0 r0 post0 (by rw [← ems, ← e0]) with
+            ⟨_, mid, _, e2⟩ | ⟨_, _, e2, _⟩ | ⟨_, mid, e1, e2⟩
+          · exact pairwise_pick hTp (X := bs.reverse) (a := rl) (mid := mid) (b := r0) (rest := post0) (by rw [ems, e2]) hpl.1 hp0.1
+          · rw [e2] at hpl; rw [hpl.2] at hie; cases hie
+          · have hle : dist r0 ≤ dist rl :=
+              pairwise_pick (R := (· ≤ ·)) hD.2 (X := pre0) (a := r0) (mid := mid) (b := rl) (rest := as.reverse)
+                (by rw [e0, e2]) hp0.1 hpl.1
+            have h1 := hpl.2
+            simp only [inEnd, decide_eq_false_iff_not, decide_eq_true_eq] at h1 hie
+            omega
+        simp [hlt]
 
 end Fit.Activity
